@@ -269,13 +269,13 @@ theorem wfList_all : ∀ (idx : List (TE α)), wfList idx = true → ∀ e ∈ i
 
 theorem leaf_sound (g : Ctx) (r : VEnv α) (hgr : EnvAgrees g r) (idx : List (TE α)) (hw : wfList idx = true)
     (ht : checkIndexes g idx = .ok ()) :
-    (∃ ls, runFor r [] idx = .ok ls) ∨ (∃ err, runFor r [] idx = .error err ∧ err.dataDependent = true) := by
-  simp only [runFor]
+    (∃ ls, nameIndexLeaf idx r = .ok ls) ∨ (∃ err, nameIndexLeaf idx r = .error err ∧ err.dataDependent = true) := by
+  simp only [nameIndexLeaf]
   rcases mapT_cases (indexValue r) (fun v => ∃ p, fragmentValue v = .ok p) (fun e => e.dataDependent = true) idx
       (fun e he => index_sound g r hgr e (wfList_all idx hw e he) (checkIndexes_all g idx ht e he)) with ⟨vs, hvs, hq⟩ | ⟨e, he, hp⟩
   · rcases mapT_cases fragmentValue (fun _ => True) (fun _ => False) vs
         (fun v hv => by obtain ⟨p, hp⟩ := hq v hv; exact Or.inl ⟨p, hp, trivial⟩) with ⟨fs, hfs, _⟩ | ⟨e, _, hf⟩
-    · left; exact ⟨[fs], by simp [hvs, hfs, bind, Except.bind, pure, Except.pure]⟩
+    · left; exact ⟨fs, by simp [hvs, hfs, bind, Except.bind]⟩
     · exact hf.elim
   · right; exact ⟨e, by simp [he, bind, Except.bind], hp⟩
 
@@ -376,17 +376,24 @@ theorem agrees_spreadable_false (x : TVal α) (elem : Kind) (ts : List Kind) (hx
   · cases elem <;> simp [Kind.canSpreadInto] at hs <;> cases p <;> simp_all [kindClass, Prim.kind, Prim.isScalar]
   · exact hne k' rfl
 
-/-- **iteration scopes are sound**: a quantified, named constraint the checker accepts expands — in any
-environment the context describes — into its leaves, or fails for a data reason -/
-theorem for_sound (idx : List (TE α)) (hwx : wfList idx = true) : ∀ (its : List (TIt α)) (g : Ctx) (r : VEnv α),
-    EnvAgrees g r → its.all TIt.wf = true → typeCheckFor g its idx = .ok () →
-    (∃ ls, runFor r its idx = .ok ls) ∨ (∃ err, runFor r its idx = .error err ∧ err.dataDependent = true)
-  | [], g, r, hgr, _, ht => leaf_sound g r hgr idx hwx (by simpa [typeCheckFor] using ht)
+/-- **iteration scopes are sound**, for any leaf: if the leaf's static check implies that the leaf runs (or
+fails for a data reason) in every environment the context describes, the same holds for the leaf under any
+accepted list of iterations -/
+theorem its_sound {β : Type} (leafS : Ctx → Except TErr Unit) (leafD : VEnv α → Except TErr β)
+    (hleaf : ∀ g r, EnvAgrees g r → leafS g = .ok () →
+      (∃ b, leafD r = .ok b) ∨ (∃ err, leafD r = .error err ∧ err.dataDependent = true)) :
+    ∀ (its : List (TIt α)) (g : Ctx) (r : VEnv α),
+    EnvAgrees g r → its.all TIt.wf = true → typeCheckIts leafS g its = .ok () →
+    (∃ ls, runIts leafD r its = .ok ls) ∨ (∃ err, runIts leafD r its = .error err ∧ err.dataDependent = true)
+  | [], g, r, hgr, _, ht => by
+    rcases hleaf g r hgr (by simpa [typeCheckIts] using ht) with ⟨b, hb⟩ | ⟨e, he, hd⟩
+    · left; exact ⟨[b], by simp [runIts, hb, bind, Except.bind, pure, Except.pure]⟩
+    · right; exact ⟨e, by simp [runIts, he, bind, Except.bind], hd⟩
   | it :: rest, g, r, hgr, hwi, ht => by
     simp only [List.all_cons, Bool.and_eq_true] at hwi
     obtain ⟨hwit, hwrest⟩ := hwi
     simp only [TIt.wf, Bool.and_eq_true, Bool.or_eq_true, beq_iff_eq] at hwit
-    simp only [typeCheckFor] at ht
+    simp only [typeCheckIts] at ht
     obtain ⟨h1, h2⟩ := bind_ok_unit _ _ _ ht
     cases hvt : variableTypes g it with
     | error e => simp [hvt, bind, Except.bind] at h2
@@ -394,7 +401,7 @@ theorem for_sound (idx : List (TE α)) (hwx : wfList idx = true) : ∀ (its : Li
       cases hdk : declareKinds g tys with
       | error e => simp [hvt, hdk, bind, Except.bind] at h2
       | ok g' =>
-        have h3 : typeCheckFor g' rest idx = .ok () := by simpa [hvt, hdk, bind, Except.bind] using h2
+        have h3 : typeCheckIts leafS g' rest = .ok () := by simpa [hvt, hdk, bind, Except.bind] using h2
         obtain ⟨elem, hty, hshape⟩ := variableTypes_ok g it tys hvt
         have hnames : tys.map Prod.fst = it.vars := by
           rcases hshape with ⟨_, rfl⟩ | ⟨_, k, _, rfl⟩ | ⟨_, _, ts, _, hl, rfl⟩
@@ -414,7 +421,7 @@ theorem for_sound (idx : List (TE α)) (hwx : wfList idx = true) : ∀ (its : Li
             have := declareUndef_fresh it.vars r r0 hr0 n (by simp [hl])
             simp [this] at hv
         obtain ⟨s1, s2⟩ := sound_expr g r0 hcov it.over hwit.1 h1
-        simp only [runFor, hr0, bind, Except.bind]
+        simp only [runIts, hr0, bind, Except.bind]
         cases hov : it.over.eval r0 with
         | error err => exact Or.inr ⟨err, rfl, s2 err hov⟩
         | ok v =>
@@ -425,8 +432,8 @@ theorem for_sound (idx : List (TE α)) (hwx : wfList idx = true) : ∀ (its : Li
           · cases hk'
             simp only
             have hstep : ∀ x ∈ elems,
-                (∃ y, (do let r1 ← bindElem r0 it x; runFor r1 rest idx) = .ok y ∧ True) ∨
-                (∃ e, (do let r1 ← bindElem r0 it x; runFor r1 rest idx) = .error e ∧ e.dataDependent = true) := by
+                (∃ y, (do let r1 ← bindElem r0 it x; runIts leafD r1 rest) = .ok y ∧ True) ∨
+                (∃ e, (do let r1 ← bindElem r0 it x; runIts leafD r1 rest) = .error e ∧ e.dataDependent = true) := by
               intro x hx
               have hxa := agreesList_mem elems _ hel x hx
               -- the environment after binding `x`
@@ -454,7 +461,7 @@ theorem for_sound (idx : List (TE α)) (hwx : wfList idx = true) : ∀ (its : Li
                       exact bind_agrees g g' r r0 it.vars _ ys hgr hdk hr0 hys (by omega)
                 · exact (agrees_spreadable_false x _ ts hxa hts hne).elim
               rcases hbind with ⟨r1, hb, hagr⟩ | ⟨e, hb, hd⟩
-              · rcases for_sound idx hwx rest g' r1 hagr hwrest h3 with ⟨ls, hls⟩ | ⟨e, he, hd⟩
+              · rcases its_sound leafS leafD hleaf rest g' r1 hagr hwrest h3 with ⟨ls, hls⟩ | ⟨e, he, hd⟩
                 · left; exact ⟨ls, by simp [hb, hls, bind, Except.bind], trivial⟩
                 · right; exact ⟨e, by simp [hb, he, bind, Except.bind], hd⟩
               · right; exact ⟨e, by simp [hb, bind, Except.bind], hd⟩
@@ -466,6 +473,197 @@ theorem for_sound (idx : List (TE α)) (hwx : wfList idx = true) : ∀ (its : Li
               simp only [bind, Except.bind] at he
               simp [he]
 
+/-- quantified, named constraints -/
+theorem for_sound (idx : List (TE α)) (hwx : wfList idx = true) (its : List (TIt α)) (g : Ctx) (r : VEnv α)
+    (hgr : EnvAgrees g r) (hwi : its.all TIt.wf = true) (ht : typeCheckFor g its idx = .ok ()) :
+    (∃ ls, runFor r its idx = .ok ls) ∨ (∃ err, runFor r its idx = .error err ∧ err.dataDependent = true) :=
+  its_sound (fun g => checkIndexes g idx) (nameIndexLeaf idx) (fun g r hgr h => leaf_sound g r hgr idx hwx h) its g r hgr hwi ht
+
+/-! ### declarations -/
+
+theorem asNumberCast_numeric (p : Prim α) (hp : p.isScalar = true) (hn : p.kind.isNumeric = true) : ∃ x, asNumberCast p = .ok x := by
+  cases p <;> simp_all [asNumberCast, Prim.kind, Kind.isNumeric, Prim.isScalar]
+
+theorem numOf_numeric (v : TVal α) (k : Kind) (hv : v.agrees k = true) (hk : k.isNumeric = true) : ∃ x, numOf v = .ok x := by
+  rcases agrees_cases v k hv with ⟨p, rfl, hp, hcl⟩ | ⟨e, vs, k', rfl, rfl, _⟩
+  · have hn : p.kind.isNumeric = true := by rw [class_isNumeric hcl]; exact hk
+    obtain ⟨x, hx⟩ := asNumberCast_numeric p hp hn
+    exact ⟨x, by simp [numOf, hx]⟩
+  · simp [Kind.isNumeric] at hk
+
+theorem num_bound_sound (g : Ctx) (r : VEnv α) (hgr : EnvAgrees g r) (dflt : α) (o : Option (TE α)) (hw : optWf o = true)
+    (ht : checkNumBound g o = .ok ()) :
+    (∃ x, evalNumBound r dflt o = .ok x) ∨ (∃ err, evalNumBound r dflt o = .error err ∧ err.dataDependent = true) := by
+  cases o with
+  | none => exact Or.inl ⟨dflt, rfl⟩
+  | some e =>
+    simp only [checkNumBound] at ht
+    obtain ⟨h1, h2⟩ := bind_ok_unit _ _ _ ht
+    have hk := ite_ok _ _ h2
+    obtain ⟨s1, s2⟩ := sound_expr g r (envAgrees_covers g r hgr) e (by simpa [optWf] using hw) h1
+    simp only [evalNumBound]
+    cases hv : e.eval r with
+    | error err => exact Or.inr ⟨err, by simp [bind, Except.bind], s2 err hv⟩
+    | ok v =>
+      obtain ⟨x, hx⟩ := numOf_numeric v _ (s1 v hv) hk
+      exact Or.inl ⟨x, by simp [hx, bind, Except.bind]⟩
+
+theorem int_bound_sound (g : Ctx) (r : VEnv α) (hgr : EnvAgrees g r) (e : TE α) (hw : e.wf = true)
+    (ht : e.typeCheck g = .ok ()) (hk : isIntKind (e.typeOf g) = true) :
+    (∃ i, (do intOf (← e.eval r)) = .ok i) ∨ (∃ err, (do intOf (← e.eval r)) = .error err ∧ err.dataDependent = true) := by
+  obtain ⟨s1, s2⟩ := sound_expr g r (envAgrees_covers g r hgr) e hw ht
+  have hnum : (e.typeOf g).isNumeric = true := by cases hh : e.typeOf g <;> simp_all [isIntKind, Kind.isNumeric]
+  cases hv : e.eval r with
+  | error err => exact Or.inr ⟨err, by simp [bind, Except.bind], s2 err hv⟩
+  | ok v =>
+    cases hi : intOf v with
+    | ok i => exact Or.inl ⟨i, by simp [hi, bind, Except.bind]⟩
+    | error err =>
+      refine Or.inr ⟨err, by simp [hi, bind, Except.bind], ?_⟩
+      rw [intOf_error v _ (s1 v hv) hnum err hi]; rfl
+
+theorem ty_sound (g : Ctx) (r : VEnv α) (hgr : EnvAgrees g r) (ty : TTy α) (hw : ty.wf = true) (ht : ty.typeCheck g = .ok ()) :
+    (∃ t, ty.eval r = .ok t) ∨ (∃ err, ty.eval r = .error err ∧ err.dataDependent = true) := by
+  cases ty with
+  | bool => exact Or.inl ⟨.bool, rfl⟩
+  | real lo hi =>
+    simp only [TTy.wf, Bool.and_eq_true] at hw
+    simp only [TTy.typeCheck] at ht
+    obtain ⟨h1, h2⟩ := bind_ok_unit _ _ _ ht
+    simp only [TTy.eval]
+    rcases num_bound_sound g r hgr Arith.negInf lo hw.1 h1 with ⟨a, ha⟩ | ⟨e, he, hd⟩
+    · rcases num_bound_sound g r hgr Arith.posInf hi hw.2 h2 with ⟨b, hb⟩ | ⟨e, he, hd⟩
+      · by_cases hc : Arith.gt a b = true
+        · exact Or.inr ⟨.other, by simp [ha, hb, hc, bind, Except.bind], rfl⟩
+        · exact Or.inl ⟨.real a b, by simp [ha, hb, hc, bind, Except.bind]⟩
+      · exact Or.inr ⟨e, by simp [ha, he, bind, Except.bind], hd⟩
+    · exact Or.inr ⟨e, by simp [he, bind, Except.bind], hd⟩
+  | nnreal lo hi =>
+    simp only [TTy.wf, Bool.and_eq_true] at hw
+    simp only [TTy.typeCheck] at ht
+    obtain ⟨h1, h2⟩ := bind_ok_unit _ _ _ ht
+    simp only [TTy.eval]
+    rcases num_bound_sound g r hgr (Arith.ofInt 0) lo hw.1 h1 with ⟨a, ha⟩ | ⟨e, he, hd⟩
+    · rcases num_bound_sound g r hgr Arith.posInf hi hw.2 h2 with ⟨b, hb⟩ | ⟨e, he, hd⟩
+      · by_cases hn : Arith.lt a (Arith.ofInt 0) = true
+        · exact Or.inr ⟨.other, by simp [ha, hb, hn, bind, Except.bind], rfl⟩
+        · by_cases hc : Arith.gt a b = true
+          · exact Or.inr ⟨.other, by simp [ha, hb, hn, hc, bind, Except.bind], rfl⟩
+          · exact Or.inl ⟨.nnreal a b, by simp [ha, hb, hn, hc, bind, Except.bind]⟩
+      · exact Or.inr ⟨e, by simp [ha, he, bind, Except.bind], hd⟩
+    · exact Or.inr ⟨e, by simp [he, bind, Except.bind], hd⟩
+  | int lo hi =>
+    simp only [TTy.wf, Bool.and_eq_true] at hw
+    simp only [TTy.typeCheck] at ht
+    obtain ⟨h1, h2⟩ := bind_ok_unit _ _ _ ht
+    obtain ⟨h3, h4⟩ := bind_ok_unit _ _ _ h2
+    have hk1 : isIntKind (lo.typeOf g) = true := by
+      cases hc : isIntKind (lo.typeOf g) with | true => rfl | false => simp [hc] at h4
+    have hk2 : isIntKind (hi.typeOf g) = true := by
+      cases hc : isIntKind (hi.typeOf g) with | true => rfl | false => simp [hk1, hc] at h4
+    simp only [TTy.eval]
+    rcases int_bound_sound g r hgr lo hw.1 h1 hk1 with ⟨a, ha⟩ | ⟨e, he, hd⟩
+    · rcases int_bound_sound g r hgr hi hw.2 h3 hk2 with ⟨b, hb⟩ | ⟨e, he, hd⟩
+      · simp only [bind, Except.bind] at ha hb ⊢
+        cases hlo : lo.eval r with
+        | error x => simp [hlo] at ha
+        | ok vlo =>
+          cases hhi : hi.eval r with
+          | error x => simp [hhi] at hb
+          | ok vhi =>
+            simp only [hlo, hhi] at ha hb ⊢
+            simp only [ha, hb]
+            split
+            · exact Or.inr ⟨.other, rfl, rfl⟩
+            · split
+              · exact Or.inr ⟨.other, rfl, rfl⟩
+              · split
+                · exact Or.inr ⟨.other, rfl, rfl⟩
+                · exact Or.inl ⟨_, rfl⟩
+      · right
+        refine ⟨e, ?_, hd⟩
+        simp only [bind, Except.bind] at ha he ⊢
+        cases hlo : lo.eval r with
+        | error x => simp [hlo] at ha
+        | ok vlo =>
+          simp only [hlo] at ha ⊢
+          simp only [ha]
+          cases hhi : hi.eval r with
+          | error x => simpa [hhi] using he
+          | ok vhi => simp only [hhi] at he ⊢; simp [he]
+    · right
+      refine ⟨e, ?_, hd⟩
+      simp only [bind, Except.bind] at he ⊢
+      cases hlo : lo.eval r with
+      | error x => simpa [hlo] using he
+      | ok vlo => simp only [hlo] at he ⊢; simp [he]
+
+theorem checkDeclVars_all (g : Ctx) : ∀ (vars : List (String × Option (List (TE α)))), checkDeclVars g vars = .ok () →
+    ∀ v ∈ vars, ∀ idx, v.2 = some idx → checkIndexes g idx = .ok ()
+  | [], _, v, hv, _, _ => by simp at hv
+  | (n, none) :: rest, h, v, hv, idx, hi => by
+    simp only [checkDeclVars] at h
+    split at h
+    · simp at h
+    · rcases List.mem_cons.1 hv with rfl | hm
+      · simp at hi
+      · exact checkDeclVars_all g rest h v hm idx hi
+  | (n, some ix) :: rest, h, v, hv, idx, hi => by
+    simp only [checkDeclVars] at h
+    obtain ⟨h1, h2⟩ := bind_ok_unit _ _ _ h
+    rcases List.mem_cons.1 hv with rfl | hm
+    · simp at hi; subst hi; exact h1
+    · exact checkDeclVars_all g rest h2 v hm idx hi
+
+/-- the leaf of a declaration -/
+theorem decl_leaf_sound (d : TDecl α) (hwt : d.ty.wf = true)
+    (hwv : d.vars.all (fun v => match v.2 with | none => true | some idx => wfList idx) = true)
+    (g : Ctx) (r : VEnv α) (hgr : EnvAgrees g r) (ht : (do checkDeclVars g d.vars; d.ty.typeCheck g) = .ok ()) :
+    (∃ b, declValuesLeaf d r = .ok b) ∨ (∃ err, declValuesLeaf d r = .error err ∧ err.dataDependent = true) := by
+  obtain ⟨h1, h2⟩ := bind_ok_unit _ _ _ ht
+  have hty := ty_sound g r hgr d.ty hwt h2
+  simp only [declValuesLeaf]
+  rcases mapT_cases (fun (v : String × Option (List (TE α))) => do
+      let frags ← match v.2 with
+        | none => pure []
+        | some idx => nameIndexLeaf idx r
+      let t ← d.ty.eval r
+      pure (v.1, frags, t)) (fun _ => True) (fun e => e.dataDependent = true) d.vars (fun v hv => by
+      obtain ⟨n, o⟩ := v
+      cases o with
+      | none =>
+        rcases hty with ⟨t, ht'⟩ | ⟨e, he, hd⟩
+        · exact Or.inl ⟨(n, [], t), by simp [ht', bind, Except.bind, pure, Except.pure], trivial⟩
+        · exact Or.inr ⟨e, by simp [he, bind, Except.bind, pure, Except.pure], hd⟩
+      | some idx =>
+        have hwi : wfList idx = true := by
+          have := List.all_eq_true.1 hwv (n, some idx) hv
+          simpa using this
+        rcases leaf_sound g r hgr idx hwi (checkDeclVars_all g d.vars h1 (n, some idx) hv idx rfl) with ⟨fs, hfs⟩ | ⟨e, he, hd⟩
+        · rcases hty with ⟨t, ht'⟩ | ⟨e, he, hd⟩
+          · exact Or.inl ⟨(n, fs, t), by simp [hfs, ht', bind, Except.bind, pure, Except.pure], trivial⟩
+          · exact Or.inr ⟨e, by simp [hfs, he, bind, Except.bind], hd⟩
+        · exact Or.inr ⟨e, by simp [he, bind, Except.bind], hd⟩) with ⟨ys, hys, _⟩ | ⟨e, he, hd⟩
+  · exact Or.inl ⟨ys, hys⟩
+  · exact Or.inr ⟨e, he, hd⟩
+
+theorem decl_sound (d : TDecl α) (hw : d.wf = true) (g : Ctx) (r : VEnv α) (hgr : EnvAgrees g r)
+    (ht : typeCheckDecl g d = .ok ()) :
+    (∃ b, runDecl r d = .ok b) ∨ (∃ err, runDecl r d = .error err ∧ err.dataDependent = true) := by
+  simp only [TDecl.wf, Bool.and_eq_true] at hw
+  rcases its_sound _ (declValuesLeaf d) (fun g r hgr h => decl_leaf_sound d hw.1.2 hw.2 g r hgr h) d.its g r hgr hw.1.1 ht with ⟨ls, hls⟩ | ⟨e, he, hd⟩
+  · exact Or.inl ⟨ls.flatten, by simp [runDecl, hls, bind, Except.bind, pure, Except.pure]⟩
+  · exact Or.inr ⟨e, by simp [runDecl, he, bind, Except.bind], hd⟩
+
+theorem typeCheckDecls_all (g : Ctx) : ∀ (ds : List (TDecl α)), typeCheckDecls g ds = .ok () → ∀ d ∈ ds, typeCheckDecl g d = .ok ()
+  | [], _, d, hd => by simp at hd
+  | x :: xs, h, d, hd => by
+    simp only [typeCheckDecls] at h
+    obtain ⟨h1, h2⟩ := bind_ok_unit _ _ _ h
+    rcases List.mem_cons.1 hd with rfl | hm
+    · exact h1
+    · exact typeCheckDecls_all g xs h2 d hm
+
 theorem typeCheckFors_all (g : Ctx) : ∀ (fors : List (TFor α)), typeCheckFors g fors = .ok () →
     ∀ f ∈ fors, typeCheckFor g f.its f.idx = .ok ()
   | [], _, f, hf => by simp at hf
@@ -476,14 +674,27 @@ theorem typeCheckFors_all (g : Ctx) : ∀ (fors : List (TFor α)), typeCheckFors
     · exact h1
     · exact typeCheckFors_all g xs h2 f hm
 
-theorem program_sound (lets : List (String × TE α)) (fors : List (TFor α)) (hwl : ∀ p ∈ lets, p.2.wf = true)
-    (hwf : ∀ f ∈ fors, f.wf = true) (ht : typeCheckProgram lets fors = .ok ()) :
-    (∃ ls, runProgram lets fors = .ok ls) ∨ (∃ err, runProgram lets fors = .error err ∧ err.dataDependent = true) := by
+theorem dedupDecls_cases (key : Prim α → String) : ∀ (ds acc : List (String × List (Prim α) × VarType α)),
+    (∃ out, dedupDecls key acc ds = .ok out) ∨ dedupDecls key acc ds = .error .other
+  | [], acc => Or.inl ⟨acc.reverse, rfl⟩
+  | d :: rest, acc => by
+    simp only [dedupDecls]
+    split
+    · split
+      · exact dedupDecls_cases key rest acc
+      · exact Or.inr rfl
+    · exact dedupDecls_cases key rest (d :: acc)
+
+theorem program_sound (key : Prim α → String) (lets : List (String × TE α)) (decls : List (TDecl α)) (fors : List (TFor α))
+    (hwl : ∀ p ∈ lets, p.2.wf = true) (hwd : ∀ d ∈ decls, d.wf = true) (hwf : ∀ f ∈ fors, f.wf = true)
+    (ht : typeCheckProgram lets decls fors = .ok ()) :
+    (∃ out, runProgram key lets decls fors = .ok out) ∨ (∃ err, runProgram key lets decls fors = .error err ∧ err.dataDependent = true) := by
   simp only [typeCheckProgram] at ht
   cases hg : typeCheckWhere lets with
   | error e => simp [hg, bind, Except.bind] at ht
   | ok g =>
-    have hfs : typeCheckFors g fors = .ok () := by simpa [hg, bind, Except.bind] using ht
+    have ht2 : (do typeCheckDecls g decls; typeCheckFors g fors) = .ok () := by simpa [hg, bind, Except.bind] using ht
+    obtain ⟨hds, hfs⟩ := bind_ok_unit _ _ _ ht2
     have hstd : ∀ p ∈ stdLets (α := α) ++ lets, p.2.wf = true := by
       intro p hp
       rcases List.mem_append.1 hp with hs | hl
@@ -494,14 +705,22 @@ theorem program_sound (lets : List (String × TE α)) (fors : List (TFor α)) (h
     simp only [runProgram]
     rcases lets_sound (stdLets ++ lets) [] [] (by intro n; simp [Ctx.get, VEnv.get]) hstd g hg with ⟨r, hr, hgr⟩ | ⟨e, he, hd⟩
     · have hr' : evalWhere lets = .ok r := hr
-      rcases mapT_cases (fun (f : TFor α) => runFor r f.its f.idx) (fun _ => True) (fun e => e.dataDependent = true) fors
-          (fun f hf => by
-            have hw := hwf f hf
-            simp only [TFor.wf, Bool.and_eq_true] at hw
-            rcases for_sound f.idx hw.2 f.its g r hgr hw.1 (typeCheckFors_all g fors hfs f hf) with ⟨ls, hls⟩ | ⟨e, he, hd⟩
-            · exact Or.inl ⟨ls, hls, trivial⟩
-            · exact Or.inr ⟨e, he, hd⟩) with ⟨ys, hys, _⟩ | ⟨e, he, hd⟩
-      · left; exact ⟨ys, by simp [hr', hys, bind, Except.bind]⟩
+      rcases mapT_cases (runDecl r) (fun _ => True) (fun e => e.dataDependent = true) decls
+          (fun d hd => by
+            rcases decl_sound d (hwd d hd) g r hgr (typeCheckDecls_all g decls hds d hd) with ⟨b, hb⟩ | ⟨e, he, hx⟩
+            · exact Or.inl ⟨b, hb, trivial⟩
+            · exact Or.inr ⟨e, he, hx⟩) with ⟨dom, hdom, _⟩ | ⟨e, he, hd⟩
+      · rcases dedupDecls_cases key dom.flatten [] with ⟨dd, hdd⟩ | hdd
+        · rcases mapT_cases (fun (f : TFor α) => runFor r f.its f.idx) (fun _ => True) (fun e => e.dataDependent = true) fors
+              (fun f hf => by
+                have hw := hwf f hf
+                simp only [TFor.wf, Bool.and_eq_true] at hw
+                rcases for_sound f.idx hw.2 f.its g r hgr hw.1 (typeCheckFors_all g fors hfs f hf) with ⟨ls, hls⟩ | ⟨e, he, hd⟩
+                · exact Or.inl ⟨ls, hls, trivial⟩
+                · exact Or.inr ⟨e, he, hd⟩) with ⟨ys, hys, _⟩ | ⟨e, he, hd⟩
+          · left; exact ⟨{ domain := dd, names := ys }, by simp [hr', hdom, hdd, hys, bind, Except.bind, pure, Except.pure]⟩
+          · right; exact ⟨e, by simp [hr', hdom, hdd, he, bind, Except.bind], hd⟩
+        · right; exact ⟨.other, by simp [hr', hdom, hdd, bind, Except.bind], rfl⟩
       · right; exact ⟨e, by simp [hr', he, bind, Except.bind], hd⟩
     · have he' : evalWhere lets = .error e := he
       right; exact ⟨e, by simp [he', bind, Except.bind], hd⟩
